@@ -1,18 +1,229 @@
 /-
-  Driver/MainC13.lean — line-protocol driver of C13 (one line in, one line out).
-  STUB: to be filled by the C13 work package (see /verif/BUILDING.md).
+  Driver/MainC13.lean — line-protocol driver of C13 (one line in, one line out):
+  executes `Model.LineCache` / `Model.KvLru` on the lines the Go harness
+  (verif/go/cmd/harness/c13.go) ran on the real code.  Core-only.
+
+  The model has value semantics; Go's cache stores the caller's `[]int8` itself and
+  hands the same slice back, and `ExistingLines()/Lines()` share the backing array
+  of `c.lines`, which `EvictCacheLine` shifts in place.  The harness exercises this
+  (`mut`, `held`, `snap`, `chk`), so the DRIVER (not the model) keeps the little
+  heap needed to predict it:
+    * `tags`  — parallel to `c.lines`: serial number of the pushed slice that is the line's `Data`;
+    * `dead`  — pushed slices that are no longer the `Data` of a resident line (frozen unless `mut`);
+    * `arr`/`gen` — the backing array of `c.lines` as (lo, hi, tag) and its generation: `Get` hits and
+      pushes allocate a new array, `EvictCacheLine` shifts the current one in place;
+    * `snaps` — held `ExistingLines()/Lines()` results: (generation, length, frozen content once the
+      array was replaced).
 -/
 import MajoranaVerif.Driver.Util
+import MajoranaVerif.Model.LineCache
+import MajoranaVerif.Model.KvLru
+open GoInt
 
-def handleC13 (line : String) : String := "todo " ++ line
+namespace Driver.C13
+open LineCache
 
-partial def loopC13 (h : IO.FS.Stream) (out : IO.FS.Stream) : IO Unit := do
+abbrev Ent := Int × Int × Nat   -- lo, hi, tag
+
+structure Snap where
+  gen : Nat
+  len : Nat
+  frozen : Option (List Ent)
+
+structure St where
+  c : Option Cache := none
+  tags : List Nat := []
+  next : Nat := 0
+  dead : List (Nat × List (BitVec 8)) := []
+  arr : List Ent := []
+  gen : Nat := 0
+  snaps : Array Snap := #[]
+  kv : Option (KvLru.Kv Int Int) := none
+
+def parseData (s : String) : List (BitVec 8) :=
+  if s == "-" || s.isEmpty then [] else (s.splitOn ",").map w8
+
+def parseInts (s : String) : List Int :=
+  if s == "-" || s.isEmpty then [] else (s.splitOn ",").map intOf
+
+def showData (d : List (BitVec 8)) : String :=
+  if d.isEmpty then "-" else ",".intercalate (d.map showI8)
+
+def aliasOf (d : List (BitVec 8)) (tag : Nat) : String :=
+  if d.isEmpty then "-1" else toString tag
+
+/-- current content of pushed slice `k` -/
+def resolve (st : St) (c : Cache) (k : Nat) : Option (List (BitVec 8)) :=
+  match (st.tags.zip c.lines).find? (fun p => p.1 == k) with
+  | some (_, l) => some l.data
+  | none => st.dead.lookup k
+
+def showEnt (st : St) (c : Cache) (e : Ent) : String :=
+  let d := (resolve st c e.2.2).getD []
+  s!"{e.1}:{e.2.1}:{showData d}:{aliasOf d e.2.2}"
+
+def showEnts (st : St) (c : Cache) (es : List Ent) : String :=
+  if es.isEmpty then "lines -" else "lines " ++ "|".intercalate (es.map (showEnt st c))
+
+def entsOf (tags : List Nat) (ls : List Line) : List Ent :=
+  (tags.zip ls).map fun (t, l) => (l.lo, l.hi, t)
+
+/-- the backing array of `c.lines` was replaced: snapshots of the old one are frozen -/
+def newArray (st : St) (tags : List Nat) (c' : Cache) : St :=
+  let snaps := st.snaps.map fun s =>
+    if s.gen == st.gen && s.frozen.isNone then { s with frozen := some (st.arr.take s.len) } else s
+  { st with snaps := snaps, gen := st.gen + 1, arr := entsOf tags c'.lines, tags := tags, c := some c' }
+
+def idxOf (c : Cache) (a : Int) : Nat :=
+  match splitAt a c.lines with
+  | some (pre, _, _) => pre.length
+  | none => 0
+
+def handleCache (st : St) (c : Cache) (toks : List String) : St × String :=
+  match toks with
+  | ["push", lo, d] =>
+    let data := parseData d
+    let k := st.next
+    let (r, c') := pushLine c (intOf lo) data
+    let allTags := k :: st.tags
+    let allLines := newLine c (intOf lo) data :: c.lines
+    let keep := c'.lines.length
+    let dropped := ((allTags.zip allLines).drop keep).map fun (t, l) => (t, l.data)
+    let out := match r with
+      | none => "none"
+      | some ev => s!"data {showData ev} a={aliasOf ev (allTags.getLast?.getD 0)}"
+    let st1 := { st with next := k + 1, dead := dropped ++ st.dead }
+    (newArray st1 (allTags.take keep) c', out)
+  | ["pushw", lo, d] =>
+    let data := parseData d
+    let k := st.next
+    let (r, c') := pushLineWithEvictionWarning c (intOf lo) data
+    let allTags := k :: st.tags
+    let out := match r with
+      | none => "none"
+      | some l => s!"line {l.lo} {l.hi} {showData l.data} a={aliasOf l.data (allTags.getLast?.getD 0)}"
+    (newArray { st with next := k + 1 } allTags c', out)
+  | ["get", a] =>
+    match get c (intOf a) with
+    | .error f => (st, showFault f)
+    | .ok (none, _) => (st, "miss")
+    | .ok (some v, c') =>
+      let i := idxOf c (intOf a)
+      let t := st.tags.getD i 0
+      (newArray st (t :: st.tags.eraseIdx i) c', s!"hit {showI8 v}")
+  | ["getline", a] =>
+    match getCacheLine c (intOf a) with
+    | .error f => (st, showFault f)
+    | .ok none => (st, "miss")
+    | .ok (some d) => (st, s!"data {showData d} a={aliasOf d (st.tags.getD (idxOf c (intOf a)) 0)}")
+  | ["getsub", n, addrs] =>
+    match getSubCacheLine c (parseInts addrs) (intOf n) with
+    | .error f => (st, showFault f)
+    | .ok none => (st, "miss")
+    | .ok (some (small, d)) => (st, s!"sub {small} {showData d}")
+  | ["evict", a] =>
+    match evictCacheLine c (intOf a) with
+    | .error f => (st, showFault f)
+    | .ok (none, _) => (st, "miss")
+    | .ok (some d, c') =>
+      let i := idxOf c (intOf a)
+      let t := st.tags.getD i 0
+      let m := c.lines.length
+      -- in place: `append(lines[:i], lines[i+1:]...)` — the old last element stays where it was
+      let arr' := st.arr.take i ++ (st.arr.drop (i + 1)).take (m - i - 1) ++ st.arr.drop (m - 1)
+      ({ st with c := some c', tags := st.tags.eraseIdx i, dead := (t, d) :: st.dead, arr := arr' },
+       s!"data {showData d} a={aliasOf d t}")
+  | ["write", a, d] =>
+    let data := parseData d
+    let c' := writeState c (intOf a) data
+    ({ st with c := some c' }, match write c (intOf a) data with | .ok _ => "ok" | .error f => showFault f)
+  | ["existing"] => (st, showEnts st c (entsOf st.tags (existingLines c)))
+  | ["lines"] => (st, showEnts st c (entsOf st.tags (lines c)))
+  | ["mut", k, i, v] =>
+    let k := natOf k
+    let i := natOf i
+    if k ≥ st.next then (st, "panic")
+    else match (st.tags.zip c.lines).findIdx? (fun p => p.1 == k) with
+      | some p =>
+        let l := c.lines.getD p default
+        if i < l.data.length then
+          ({ st with c := some { c with lines := c.lines.set p { l with data := l.data.set i (w8 v) } } }, "ok")
+        else (st, "panic")
+      | none =>
+        match st.dead.lookup k with
+        | some d =>
+          if i < d.length then
+            ({ st with dead := st.dead.map fun (t, x) => if t == k then (t, x.set i (w8 v)) else (t, x) }, "ok")
+          else (st, "panic")
+        | none => (st, "panic")
+  | ["held", k] =>
+    match resolve st c (natOf k) with
+    | some d => (st, "data " ++ showData d)
+    | none => (st, "panic")
+  | ["snap", w] =>
+    let ls := if w == "e" then existingLines c else lines c
+    ({ st with snaps := st.snaps.push { gen := st.gen, len := ls.length, frozen := none } },
+     showEnts st c (entsOf st.tags ls))
+  | ["chk", j] =>
+    match st.snaps[natOf j]? with
+    | none => (st, "panic")
+    | some s =>
+      let es := match s.frozen with
+        | some es => es
+        | none => st.arr.take s.len
+      (st, showEnts st c es)
+  | _ => (st, "bad-op")
+
+def showKv (l : KvLru.Kv Int Int) : String :=
+  let ord := if l.order.isEmpty then "-" else ",".intercalate (l.order.map toString)
+  let es := sortBy (fun (p : Int × Int) => p.1) l.cache.entries
+  let m := if es.isEmpty then "-" else ",".intercalate (es.map fun (k, v) => s!"{k}:{v}")
+  s!"order={ord} map={m}"
+
+def handleKv (st : St) (toks : List String) : St × String :=
+  match toks, st.kv with
+  | ["kvnew", n], _ =>
+    let l : KvLru.Kv Int Int := KvLru.new (natOf n)
+    ({ st with kv := some l }, "ok " ++ showKv l)
+  | _, none => (st, "panic order=? map=?")
+  | ["kvput", k, v], some l =>
+    match KvLru.put l (intOf k) (intOf v) with
+    | .ok l' => ({ st with kv := some l' }, "ok " ++ showKv l')
+    | .error f => (st, showFault f ++ " " ++ showKv l)
+  | ["kvget", k], some l =>
+    match KvLru.get l (intOf k) with
+    | (some v, l') => ({ st with kv := some l' }, s!"hit {v} " ++ showKv l')
+    | (none, l') => ({ st with kv := some l' }, "miss " ++ showKv l')
+  | "kvfind" :: rest, some l =>
+    match KvLru.find l (parseInts (rest.headD "-")) with
+    | (some k, l') => ({ st with kv := some l' }, s!"found {k} " ++ showKv l')
+    | (none, l') => ({ st with kv := some l' }, "miss " ++ showKv l')
+  | _, _ => (st, "bad-op")
+
+def handle (st : St) (line : String) : St × String :=
+  let toks := words line
+  match toks with
+  | "new" :: l :: c :: _ =>
+    match LineCache.new (natOf l) (natOf c) with
+    | .ok c0 => ({ kv := st.kv, c := some c0 }, s!"ok {c0.numberOfLines}")
+    | .error f => ({ kv := st.kv }, showFault f)
+  | [] => (st, "bad-op")
+  | op :: _ =>
+    if op.startsWith "kv" then handleKv st toks
+    else match st.c with
+      | some c => handleCache st c toks
+      | none => (st, if ["push", "pushw", "get", "getline", "getsub", "evict", "write", "existing", "lines", "mut", "held", "snap", "chk"].contains op then "panic" else "bad-op")
+
+end Driver.C13
+
+partial def loopC13 (h : IO.FS.Stream) (out : IO.FS.Stream) (st : Driver.C13.St) : IO Unit := do
   let line ← h.getLine
   if line.isEmpty then return ()
-  out.putStrLn (handleC13 line.trimAscii.toString)
-  loopC13 h out
+  let (st', res) := Driver.C13.handle st line.trimAscii.toString
+  out.putStrLn res
+  loopC13 h out st'
 
 def main : IO Unit := do
   let out ← IO.getStdout
-  loopC13 (← IO.getStdin) out
+  loopC13 (← IO.getStdin) out {}
   out.flush
